@@ -1,7 +1,7 @@
 (** C12 — pinned statements. Nothing but statements, [exact], and assumption audits. *)
 From TU Require Import Base C12_Model C12_Spec C12_Matrix C12_Trace C12_Norm C12_Proofs.
 From Coq Require Import QArith.
-From TU Require Import UAX29_Model C12_UAX29.
+From TU Require Import UAX29_Model C12_UAX29 C12_Sym.
 Open Scope nat_scope.
 
 (** ** distance = the reference metric.  [Align fl a b n]: an alignment of cost [n]
@@ -14,6 +14,17 @@ Print Assumptions dist_achieved.
 Theorem dist_minimal : forall fl a b n, Align fl a b n -> dist fl a b <= n.
 Proof. exact dist_minimal_l. Qed.
 Print Assumptions dist_minimal.
+
+(** A metric law: alignments can be read in either direction (insert <-> delete, the whitespace guards of
+    [sid] are symmetric), so the distance the row-by-row DP computes does not depend on the argument order,
+    for every flag combination. *)
+Theorem Align_symmetric : forall fl a b n, Align fl a b n -> Align fl b a n.
+Proof. exact Align_sym_l. Qed.
+Print Assumptions Align_symmetric.
+
+Theorem dist_symmetric : forall fl a b, dist fl a b = dist fl b a.
+Proof. exact dist_sym_l. Qed.
+Print Assumptions dist_symmetric.
 
 (** every cell of the iteratively built matrix is the distance of the prefixes *)
 Theorem cell_prefix : forall fl a b i j, i <= length a -> j <= length b ->
